@@ -156,7 +156,7 @@ pub fn gen_c08(out: &mut dyn Write, thorough: bool, seed: u64) {
             let mut cur: Option<usize> = None;
             let len = r.range(0, if thorough { 12 } else { 8 }) as usize;
             for _ in 0..len {
-                match r.below(10) {
+                match r.below(11) {
                     0 | 1 | 2 => {
                         let kind = r.below(3);
                         let text = if r.chance(1, 4) {
@@ -214,6 +214,31 @@ pub fn gen_c08(out: &mut dyn Write, thorough: bool, seed: u64) {
                             } else {
                                 s.tags_mut()[i] = Some("z".into());
                                 ops.push(format!("sett:{i}:{}", hexs("z")));
+                            }
+                        }
+                    }
+                    9 => {
+                        use vaporetto_rules::{sentence_filters::*, SentenceFilter};
+                        match r.below(4) {
+                            0 => {
+                                let t = r.range(1, 6) as u8;
+                                KyteaWsConstFilter::new(crate::sent::type_of(t).unwrap()).filter(&mut s);
+                                ops.push(format!("filter:ws:{t}"));
+                            }
+                            1 => {
+                                SplitLinebreaksFilter.filter(&mut s);
+                                ops.push("filter:lb".into());
+                            }
+                            2 => {
+                                let cl = crate::filt::cluster_lengths(s.as_raw_text());
+                                ConcatGraphemeClustersFilter.filter(&mut s);
+                                ops.push(format!("filter:gc:{}", cl.iter().map(|x| x.to_string()).collect::<Vec<_>>().join(".")));
+                            }
+                            _ => {
+                                let surf: String = s.as_raw_text().chars().take(1).collect();
+                                let rs = format!("{}={}+~+{}", hexs(&surf), hexs("R0"), hexs("R2"));
+                                PatternMatchTagger::new(crate::sent::parse_rules(&rs).unwrap()).filter(&mut s);
+                                ops.push(format!("filter:tag:{rs}"));
                             }
                         }
                     }
